@@ -9,6 +9,27 @@ ALL = ["C%02d" % i for i in range(1, 21)]
 
 # id -> (category, text, note, technique, design_ref)
 CHECKS = {
+    "C09": ("exploration",
+            "Race-detector builds of client + harness: up to 128 callers (gets, puts, batches, scans with 2 ms renewal) over up "
+            "to 16 regions on up to 4 servers while an injector kills connections, takes regions offline, splits and moves "
+            "them, sends abort exceptions and refuses dials every few milliseconds; ten log statements of the client act as "
+            "preemption points with seeded delays, so that every run realises a different interleaving (its signature is "
+            "recorded). After a fault-free phase and a request into every region: no caller blocked, no cached region "
+            "unavailable, no region holding a dead connection. Panics/fatal errors are caught by the child-process crash "
+            "monitor, data races in gohbase frames by the race log.",
+            "A clean race log covers only accesses that ran concurrently in these runs; schedule coverage is reported as "
+            "distinct interleaving signatures, not as a fraction of the space.",
+            "Go race detector + crash monitor + quiescence invariants under stress with fault injection", "DESIGN.md §2 C09"),
+    "C13": ("exploration",
+            "The client is driven into each named wait state (ZooKeeper blocked, meta lookup unanswered, probe unanswered, dial "
+            "hanging, 4.096 s retry back-off, 4.096 s lookup back-off, send queue busy with a stalled server and full socket, "
+            "request written and server silent), the state is confirmed from simulator/connection events, then the context "
+            "is cancelled or its deadline falls inside the state, for every entry point (single call, unbatched call, batch, "
+            "batch whose waiting call has its own context, scanner). All natural exits are 120 s away; the call must return a "
+            "context error within 3 s; a scheduler-stall canary guards the bound.",
+            "3 s vs 120 s separation; states not listed are not judged. Four narrowly keyed known findings (blocked conn.Write, "
+            "batch back-off with a per-call context).",
+            "runtime bounded-response monitor over confirmed wait states", "DESIGN.md §2 C13"),
     "C19": ("exploration",
             "With 1..16 callers running gets, puts, batches and scans, Close is issued at points chosen through real "
             "preemption points of the client (its log statements, the dialer, held server replies): right before a dial, during "
